@@ -984,6 +984,7 @@ class Prop(Check):
         "RuleTypes.C03_result_alternative",
         "RuleTypes.C03_result_spec",
         "RuleTypes.C03_result_instance",
+        "RuleTypes.C03_result_instance_other_false",
         "RuleTypes.C03_inh_lower",
         "RuleTypes.C03_inh_upper",
         "RuleTypes.C03_isinstance_bounds",
